@@ -62,6 +62,10 @@ def scenarios(tier):
         # over a node before it takes one: the hand-over must be ordered through the skipped node's word as well)
         sc.append(("recycle_second_" + kind, c, SETUP_TWOSEG,
                    [[AB(40), FILL(T0), DROP(T0)], [AB(40), FILL(T1), VER(T1)]], {"live": False}))
+        # ... and the same hand-over for a block that came from FRESH space: its first 8 bytes were the owner's own bytes
+        # before they became the node word (a block taken from the list keeps the node header out of the user's range)
+        sc.append(("fresh_recycle_second_" + kind, c, [AB(24), FILL(1), AB(127), FILL(2), DROP(1)],
+                   [[AB(40), FILL(T0), AB(8), FILL(T0 + 1), DROP(T0)], [AB(24), FILL(T1), VER(T1)]], {"live": False}))
         # the remainder rule reads the minimum segment size while another thread changes it (and the discarded counter)
         sc.append(("minseg_race_" + kind, c, SETUP_ONESEG,
                    [[{"k": "setmin", "v": 40}, {"k": "incdisc", "v": 3}, DROP(2)], [AB(16), FILL(T1), VER(T1), DROP(T1)]], {"live": True}))
